@@ -112,6 +112,65 @@ def literals(ctx, values):
     return len(progs)
 
 
+def words(ctx, values):
+    """the Zwerg words add / sub / mul / div / mod and the comparisons on literal operands through the real engine
+    (value-cst.cc's operators sit between the parser and int.cc): exact result or an error, nothing else"""
+    from . import zwcorr, dwcorr
+    rng = ctx.rng
+    vals = [v for v in values if -H63 <= v < M64]
+    edge = [v for v in vals if abs(v) <= 3 or abs(abs(v) - H63) <= 2 or abs(abs(v) - M64) <= 2 or abs(v) in (1 << 32, (1 << 32) - 1)]
+    pairs = [(a, b) for a in edge for b in edge]
+    pairs += [(rng.choice(vals), rng.choice(vals)) for _ in range(300 if ctx.tier == "quick" else 20000)]
+    if ctx.tier == "quick":
+        pairs = rng.sample(pairs, min(len(pairs), 900))
+
+    def lit(v):
+        # unsigned values above 2^63 can only be written as such; others in either notation
+        return str(v) if rng.random() < 0.7 or v < 0 else "0x%x" % v
+    progs, want = [], []
+    for a, b in pairs:
+        for op in rng.sample(OPS2, 2) + [rng.choice(CMPS)]:
+            la, lb = lit(a), lit(b)
+            if op in OPS2:
+                progs.append("%s %s %s value" % (la, lb, op))      # `value` drops the domain: the number is what is compared
+                if op in ("div", "mod") and b == 0:
+                    want.append("err")
+                else:
+                    r = {"add": a + b, "sub": a - b, "mul": a * b, "div": a // b if b else 0, "mod": a % b if b else 0}[op]
+                    want.append(r if -H63 <= r < M64 else "err")
+            else:
+                progs.append("%s %s ?%s" % (la, lb, op))
+                want.append({"lt": a < b, "le": a <= b, "gt": a > b, "ge": a >= b, "eq": a == b, "ne": a != b}[op])
+    h = zwcorr.Harness(ctx)
+    recs, crashes = h.run_impl_robust(["Q - " + zwcorr.hx(p) for p in progs])
+    bad = 0
+    for p, w, r in zip(progs, want, recs):
+        if r.err == "crash":
+            ctx.violation("the library crashed on %r" % p, {"stream": "int-words", "input": p})
+            bad += 1
+        elif isinstance(w, bool):
+            got = len(r.res) > 0 if not r.err else r.err
+            if got != w:
+                bad += 1
+                ctx.violation("`%s` %s, mathematical order says %s" % (p, "holds" if got is True else "does not hold" if got is False else got, w),
+                              {"stream": "int-words", "input": p, "expected": w, "got": got, "theorem": "ZwVerif.C08.lt_iff"})
+        elif w == "err":
+            if r.res or not (r.err or r.soft):       # reported as a diagnostic (the stack is dropped) or as a run-time error
+                bad += 1
+                ctx.violation("`%s` yields %r, but the exact result is not representable (or the divisor is zero): an error is due" % (p, r.res[:1]),
+                              {"stream": "int-words", "input": p, "expected": "error", "got": r.res[:1], "theorem": "ZwVerif.C08.exact_iff"})
+        else:
+            vals_ = dwcorr.parse_vals(r.res[0]) if r.res and not r.err else []
+            got = vals_[-1][2] if vals_ and vals_[-1][0] == "c" else (r.err or r.res)
+            if got != w:
+                bad += 1
+                ctx.violation("`%s` yields %r, exact arithmetic says %d" % (p, got, w),
+                              {"stream": "int-words", "input": p, "expected": w, "got": repr(got), "theorem": "ZwVerif.C08.sub_exact"})
+        if bad > 10:
+            break
+    return len(progs)
+
+
 def run(ctx):
     proved = ctx.prove("ZwVerif.Props.C08", THEOREMS)
     exe = ctx.harness("intharness", link_lib=True)
@@ -196,7 +255,9 @@ def run(ctx):
             break
     nlit = literals(ctx, sorted(set(den(*a) for a in lat)))
     ctx.cov["literals_checked"] = nlit
-    ctx.cov["evaluations"] = len(cases) + nlit
+    nwords = words(ctx, sorted(set(den(*a) for a in lat)))
+    ctx.cov["word_level_operations_checked"] = nwords
+    ctx.cov["evaluations"] = len(cases) + nlit + nwords
     ctx.cov["distinct_nontrivial"] = len(distinct)
     ctx.cov["rule"] = ("boundary lattice (0, ±1, ±2, 2^k, 2^k±1, INT64_MIN/MAX, UINT64_MAX, every non-negative value "
                        "below 2^63 in both representations) × itself × {add,sub,mul,div,mod,6 comparisons} + unary minus, "
